@@ -170,7 +170,7 @@ def mean_backward(grad:np.ndarray, a_shape:tuple, axis:'None| int | tuple', keep
         grad = unsqueeze_forward(grad, axis)
     
     if axis is None: axis = range(len(a_shape))
-    if isinstance(axis, int): axis = [axis]
+    if isinstance(axis, (int, np.integer)): axis = [axis] # a NumPy integer dim is accepted by the forward pass too
     axis = [ax + len(a_shape) if ax < 0 else ax for ax in axis] # negative dims, also inside tuples
     n_samples = np.prod([a_shape[i] for i in range(len(a_shape)) if i in axis])
 
